@@ -153,7 +153,7 @@ OBJ = {"none": None, "int": 5, "empty": "", "float": 1.5, "strnum": "7", "str": 
        "alnum": "1a", "dash": "a-b", "space": "a b", "md5_short": "abc123", "md5_upper": "A" * 32, "md5_31": "a" * 31,
        "layered": "layered-product", "variantid": "Server", "nan": float("nan"), "bytes": b"x86_64", "md5_nl": "a" * 32 + "\n",
        "zerofloat": 0.0, "archlist": ["x86_64"], "blanks": "  \t ", "numnl": "22\n", "list_int_float": [1, 1.0], "list_int_bool": [1, True], "list_of_text": ["x", "y"], "list_of_float": [1.5],
-       "set_of_int": set([5]), "set_of_none": set([None]), "set_of_blank": set([""])}
+       "md5_nonhex": "g" * 32, "set_of_int": set([5]), "set_of_none": set([None]), "set_of_blank": set([""])}
 FULLWIDTH = {ord(c): 0xFF10 + int(c) for c in "0123456789"}
 DOC = dict(OBJ)
 DOC.update({"emptyset": [], "int_date": 20150522, "set_of_int": [5], "set_of_none": [None], "set_of_blank": [""]})
@@ -182,6 +182,10 @@ def corrupt_object(fmt, obj, node_index, field, cls):
         node.images[plat][sorted(node.images[plat])[0]] = 5
     elif field == "image_paths" and cls == "table_none":
         node.images[sorted(node.images)[0]] = None
+    elif field == "image_paths" and cls in ("tables_zero", "tables_emptylist"):
+        node.images = 0 if cls == "tables_zero" else []
+    elif field == "paths_table":
+        node.paths.os_tree = "Server/os"
     elif cls == "misaligned":
         node.uid = node.uid + "x"
     elif cls == "dashvariant":
